@@ -67,6 +67,15 @@ fn explorations(run: &Run, flags: Flags) {
             &[Op::Var(0), Op::Var(1), Op::Bin(4, 2, 3), Op::Restrict(5, 0, true)],
         ));
     }
+    // a store whose listener has gone away: the failing send in node creation must not disturb anything
+    if cfg!(feature = "frontend") {
+        let plan: Vec<(usize, usize)> = if quick { vec![(2, 5), (3, 4)] } else { vec![(2, 7), (3, 6)] };
+        for (vars, depth) in plan {
+            let cfg = Explore { vars, depth, with_memo_key: false, reimports: true, flags, init: Init::GoneListener, name: format!("store V={} streaming to a listener that has gone away", vars) };
+            let st = explore(run, &cfg);
+            run.add_counts(st.states, st.transitions, st.transitions, st.states.saturating_sub(1));
+        }
+    }
     // non-initial start states: the stores produced by ADF construction (native and bridged)
     let fams = [fam_a(2), fam_f(3, 1)];
     for fam in fams {
